@@ -1340,10 +1340,17 @@ impl<'arena> PrettyFormatter<'arena> {
                         && self.should_elide_parentheses(term.into(), (*inner).into()) =>
                 {
                     let elided = self.term_with_requirement(*inner, requirement);
+                    // Render the contents once when both alternatives show them at the
+                    // same requirement: nested groups otherwise double the work per level.
+                    let contents = if requirement == TermRequirement::Annotated {
+                        elided.clone()
+                    } else {
+                        self.annotated_term(*inner)
+                    };
                     let grouped = self.delimited(
                         Some(term.into()),
                         "(",
-                        vec![self.annotated_term_fragment(*inner)],
+                        vec![LayoutFragment::entity((*inner).into(), contents)],
                         ",",
                         ")",
                     );
